@@ -122,6 +122,6 @@ func c09AgentS(direct bool, spareInput bool, shared bool) {
 	}
 }
 
-func VerifC09Agent()        { c09Agent(false, vchoose("spare", 2) == 1) }
-func VerifC09AgentDirect()  { c09Agent(true, false) }
+func VerifC09Agent()            { c09Agent(false, vchoose("spare", 2) == 1) }
+func VerifC09AgentDirect()      { c09Agent(true, false) }
 func VerifC09AgentSharedInput() { c09AgentS(false, true, true) }
